@@ -531,6 +531,11 @@ fn run_read(a: &BTreeMap<String, String>) -> String {
     if !f.tail_layout && (f.csize as usize) > f.body.len() {
         return "bad-op".into();
     }
+    let first: Option<Option<Vec<u8>>> = match a.get("first").map(|s| s.as_str()) {
+        None => None,
+        Some("none") => Some(None),
+        Some(h) => match unhex(h) { Some(v) => Some(Some(v)), None => return "bad-op".into() },
+    };
     let r = catch(move || {
         let (zipb, idx) = build_zip(&f);
         let limit = (f.body.len() + f.usize_ as usize + 4) * (bufs.len() + 1) + 8;
@@ -538,31 +543,51 @@ fn run_read(a: &BTreeMap<String, String>) -> String {
             Ok(a) => a,
             Err(e) => return format!("open={}", zerr_class(&e)),
         };
-        let opened = match &trypw {
-            None => ar.by_index(idx).map(Ok),
-            Some(p) => ar.by_index_decrypt(idx, p),
-        };
-        let mut file = match opened {
-            Err(e) => return format!("open=ok file={}", zerr_class(&e)),
-            Ok(Err(_)) => return "open=ok file=invalidpw".into(),
-            Ok(Ok(f)) => f,
-        };
-        #[allow(deprecated)]
-        let method = file.compression().to_u16();
-        if api != "loop" {
-            let (out, err) = consume(&mut file, &api, f.usize_ as usize);
-            return match err {
-                Some(c) => format!("open=ok file=ok read={}", c),
-                None => format!("open=ok file=ok read=ok len={} h={}", out.len(), fnv64(&out)),
+        // a preceding open of the SAME entry on the same archive object with another password (or none), read to
+        // its end, outcome ignored: whatever state an open leaves behind must not change the next one
+        if let Some(fp) = &first {
+            let opened = match fp {
+                None => ar.by_index(idx).map(Ok),
+                Some(p) => ar.by_index_decrypt(idx, p),
             };
+            if let Ok(Ok(mut f0)) = opened {
+                let _ = std::io::copy(&mut f0, &mut std::io::sink());
+            }
         }
-        let l = caller_loop(&mut file, &bufs, limit);
-        let ag = if method == 0 { format!(" again={}", l.again) } else { String::new() };
-        match l.err {
-            Some(c) if method == 0 => format!("open=ok file=ok read={} after={}{}", c, l.out.len(), ag),
-            Some(c) => format!("open=ok file=ok read={}", c),
-            None => format!("open=ok file=ok read=ok len={} h={}{}", l.out.len(), fnv64(&l.out), ag),
+        let mut one = |ar: &mut zip::ZipArchive<Cursor<Vec<u8>>>| -> String {
+            let opened = match &trypw {
+                None => ar.by_index(idx).map(Ok),
+                Some(p) => ar.by_index_decrypt(idx, p),
+            };
+            let mut file = match opened {
+                Err(e) => return format!("open=ok file={}", zerr_class(&e)),
+                Ok(Err(_)) => return "open=ok file=invalidpw".into(),
+                Ok(Ok(f)) => f,
+            };
+            #[allow(deprecated)]
+            let method = file.compression().to_u16();
+            if api != "loop" {
+                let (out, err) = consume(&mut file, &api, f.usize_ as usize);
+                return match err {
+                    Some(c) => format!("open=ok file=ok read={}", c),
+                    None => format!("open=ok file=ok read=ok len={} h={}", out.len(), fnv64(&out)),
+                };
+            }
+            let l = caller_loop(&mut file, &bufs, limit);
+            let ag = if method == 0 { format!(" again={}", l.again) } else { String::new() };
+            match l.err {
+                Some(c) if method == 0 => format!("open=ok file=ok read={} after={}{}", c, l.out.len(), ag),
+                Some(c) => format!("open=ok file=ok read={}", c),
+                None => format!("open=ok file=ok read=ok len={} h={}{}", l.out.len(), fnv64(&l.out), ag),
+            }
+        };
+        // "each open behaves like the first": the same open again on the same archive object
+        let r1 = one(&mut ar);
+        let r2 = one(&mut ar);
+        if r1 != r2 {
+            return format!("{r1} reopen-differs second=[{}]", r2.replace(' ', "_"));
         }
+        r1
     });
     r.unwrap_or_else(|_| "open=ok file=ok read=panic".into())
 }
@@ -816,7 +841,9 @@ impl Stream for Aes {
                   right / no / a wrong password under varying caller buffer schedules and both archive layouts; single-bit \
                   flips of salt / verifier / ciphertext / code of entries <= 64 bytes (every bit in thorough, sampled in \
                   quick); wrong CRC under AE-1 vs AE-2; truncated and too-short entries; flag-clear; inner method 99; \
-                  malformed and reordered 0x9901 extra fields; the repo fixture; consumer APIs: besides the explicit read loop, \
+                  malformed and reordered 0x9901 extra fields; the repo fixture; every aes.read opens its entry TWICE on the same ZipArchive and reports a difference \
+                  (each open behaves like the first), right-password cases also behind a preceding open with a wrong / no / the \
+                  right password (first=); consumer APIs: besides the explicit read loop, \
                   right-password / flipped / wrong-CRC / truncated cases are repeated through read_to_end, io::copy, \
                   read_exact(declared size)+EOF probe and bytes() in rotation (api=), and the >32 KiB deflated entries whose \
                   first-ciphertext-byte flip ends the compressed stream early through ALL of them. aes.layer: AesReader through the hook over \
@@ -850,6 +877,12 @@ impl Stream for Aes {
                             let api = APIS[1 + (api_rot % 4)];
                             api_rot += 1;
                             g.push(&format!("read.right.api-{api}"), with_api(read_line("plain", &info, &b.f, bits, cs, Some(pw), &b.enc.inner, &plain, bufs), api));
+                            {
+                                let mut w2 = pw.clone();
+                                w2.push(b'y');
+                                let (tag, fst) = match api_rot % 3 { 0 => ("wrong", hex(&w2)), 1 => ("none", "none".to_string()), _ => ("right", if pw.is_empty() { "-".to_string() } else { hex(pw) }) };
+                                g.push(&format!("read.right.after-{tag}"), format!("{} first={fst}", read_line("plain", &info, &b.f, bits, cs, Some(pw), &b.enc.inner, &plain, bufs)));
+                            }
                             g.push("read.nopw", read_line("pwreq", &info, &b.f, bits, cs, None, &b.enc.inner, &plain, bufs));
                             let mut wrong = pw.clone();
                             wrong.push(b'x');
